@@ -15,6 +15,10 @@
 #else
 #include <oneapi/tbb/queuing_rw_mutex.h>
 #endif
+#if defined(SPEC_RW) || defined(SPEC_MX)
+#include "tbb/governor.h"
+#endif
+#include "hb.h"
 #include <cstdio>
 #include <cstring>
 #include <map>
@@ -50,6 +54,7 @@ static std::vector<std::vector<std::string>> g_progs;
 static bool g_orders = false;
 static bool g_dfs = false;
 static long g_starved = 0;
+static bool g_speculation = false;
 
 // bounded-preemption DFS made fair towards threads that spin WITH writes and without a pause (queuing_rw_mutex's `goto retry`
 // loops never park): after 60 consecutive steps of one thread while others are runnable the next runnable thread is
@@ -83,6 +88,10 @@ static bool run_once(verif::Schedule& sch, int run_idx, bool print) {
 #ifdef QUEUING
     verif::name_addr(&m.q_tail, "tail");
     for (size_t t = 0; t < T; ++t) {
+        // scoped_lock() leaves my_prev / my_next / my_state unset (recycled heap memory): start every run from the all-zero node
+        // the header documents ("equivalent to zero-initialization of *this"), as the model does; outside verif::run, not logged
+        lk[t].my_prev.store(0, std::memory_order_relaxed); lk[t].my_next.store(0, std::memory_order_relaxed);
+        lk[t].my_state.store(0, std::memory_order_relaxed);
         verif::name_addr(&lk[t].my_prev, "prev");
         verif::name_addr(&lk[t].my_next, "next");
         verif::name_addr(&lk[t].my_state, "state");
@@ -92,6 +101,7 @@ static bool run_once(verif::Schedule& sch, int run_idx, bool print) {
     const void* tail_addr = (const void*)&m.q_tail;
 #elif defined(SPEC_RW)
     verif::name_addr(&m.m_state, "word");
+    verif::name_addr(&m.write_flag, "wflag");
     const void* tail_addr = nullptr;
 #else
     verif::name_addr(&m.m_flag, "word");
@@ -100,10 +110,10 @@ static bool run_once(verif::Schedule& sch, int run_idx, bool print) {
     std::vector<std::function<void()>> bodies;
     for (size_t t = 0; t < T; ++t) bodies.push_back([&, t] {
         Mode held = NONE;
-        auto acquire_w = [&] { if (g.W || g.R) g.err = "writer entered while held (W=" + std::to_string(g.W) + ",R=" + std::to_string(g.R) + ")"; g.W = 1; g.wgen++; held = WR; };
-        auto acquire_r = [&] { if (g.W) g.err = "reader entered while a writer holds"; g.R++; held = RD; };
+        auto acquire_w = [&] { if (g.W || g.R) g.err = "writer entered while held (W=" + std::to_string(g.W) + ",R=" + std::to_string(g.R) + ")"; g.W = 1; g.wgen++; held = WR; cs_w(); };
+        auto acquire_r = [&] { if (g.W) g.err = "reader entered while a writer holds"; g.R++; held = RD; cs_r(); };
         auto do_release = [&] {
-            if (held == WR) g.W = 0; else g.R--;
+            if (held == WR) { cs_w(); g.W = 0; } else { cs_r(); g.R--; }
             held = NONE;
             verif::note("rel", t);
             lk[t].release();
@@ -134,6 +144,7 @@ static bool run_once(verif::Schedule& sch, int run_idx, bool print) {
             } else if (kRw && op == "upgrade" && held == RD) {
                 eff[t].push_back(op);
                 long gen0 = g.wgen;
+                cs_r();
                 g.R--;                       // ghost release first: ghost-held intervals lie inside the real ones
                 verif::note("upgBegin", t);
                 bool b = do_upgrade(lk[t]);
@@ -143,14 +154,17 @@ static bool run_once(verif::Schedule& sch, int run_idx, bool print) {
                 verif::note("upgEnd", t, b);
             } else if (kRw && op == "downgrade" && held == WR) {
                 eff[t].push_back(op);
+                cs_w();
                 g.W = 0; g.R++; held = RD;   // ghost: a reader from before the call on (a writer entering during the call is caught)
                 verif::note("downgrade", t);
                 do_downgrade(lk[t]);
+                cs_r();
             }
         }
         if (held != NONE) { eff[t].push_back("release"); do_release(); }
     });
     verif::Result r = verif::run(bodies, sch, g_dfs ? 50000 : 2000000);
+    std::vector<int> wmode(T, 0);
     // step limit hit with nobody parked: a thread that spins WITH writes and without a pause (queuing_rw_mutex's `goto retry` loops)
     // was never preempted by the bounded-preemption enumeration — an unfair schedule, not a lost hand-off.  Skip it in DFS mode
     // (the stuck OS threads are leaked, parked for ever); under the fair random schedules it is reported.
@@ -159,6 +173,32 @@ static bool run_once(verif::Schedule& sch, int run_idx, bool print) {
         printf("starved-sched"); for (size_t i = 0; i < r.schedule.size() && i < 6000; ++i) printf(" %d", r.schedule[i]);
         printf("\nsummary runs=%d bad=0 starved=1\n", run_idx); fflush(stdout); _exit(4);
     }
+#ifdef SPEC_RW
+    // write_flag monitor (implementation side, independent of the model): speculative readers subscribe to write_flag only, so
+    // from the return of a real writer's acquire / try_acquire / upgrade to its release / downgrade call write_flag must read true.
+    // Here every holder is a real one (no RTM under the shim: speculation_enabled() is false); with speculation the monitor is skipped.
+    if (g.err.empty() && !r.deadlock && !g_speculation) {
+        int wholders = 0; bool flag = false; size_t idx = 0;
+        for (auto& e : r.log) {
+            if (e.kind == verif::K_NOTE) {
+                std::string tag = e.tag;
+                if ((tag == "grant" || tag == "tryOk") && e.b) wholders++;
+                else if (tag == "upgEnd") wholders++;
+                else if (tag == "rel" && wmode[e.a]) wholders--;
+                else if (tag == "downgrade") wholders--;
+                if (tag == "grant" || tag == "tryOk") wmode[e.a] = (int)e.b;
+                if (tag == "upgEnd") wmode[e.a] = 1;
+                if (tag == "downgrade") wmode[e.a] = 0;
+            } else if (e.addr == (const void*)&m.write_flag && e.kind == verif::K_STORE) flag = e.a != 0;
+            if (wholders > 0 && !flag && g.err.empty())
+                g.err = "a real writer holds the lock while write_flag == false (speculative readers are not locked out), log index " + std::to_string(idx);
+            idx++;
+        }
+    }
+#endif
+    // happens-before between the critical sections under the orders the code passed (speculative holders synchronise through the
+    // transaction, which the shim does not log: real paths only)
+    if (g.err.empty() && !g_speculation) g.err = cs_hb(r, bodies.size());
     bool ok = g.err.empty() && !r.deadlock;
     if (print || !ok) {
         printf("run %d\n", run_idx);
@@ -169,6 +209,7 @@ static bool run_once(verif::Schedule& sch, int run_idx, bool print) {
         for (auto& e : r.log) {
             if (e.kind == verif::K_NOTE) {
                 std::string tag = e.tag;
+                if (cs_ghost_tag(e.tag)) continue;
                 if (tag == "req" || tag == "upgBegin") in_acquire[e.a] = 1;
                 if (tag == "grant" || tag == "upgEnd") in_acquire[e.a] = 0;
                 if (tag == "req") req_mode[e.a] = (int)e.b;
@@ -208,6 +249,57 @@ static bool run_once(verif::Schedule& sch, int run_idx, bool print) {
                 if (seen.insert(buf).second) printf("%s\n", buf);
             }
         }
+#ifdef QUEUING
+        // access-level trace for the replay on the Lean node-protocol model `QRwN` (Model/C08N.lean): every access to q_tail and to
+        // the nodes' my_prev / my_next / my_state / my_going / my_internal_lock.  Node pointers are canonicalised to
+        // 2*(owner+1) + tag bit (0 = null, 1 = null|FLAG), the variable name carries the owner's thread id.
+        {
+            auto ptrval = [&](uint64_t v) -> unsigned long long {
+                uint64_t base = v & ~(uint64_t)1, flag = v & 1;
+                if (base == 0) return flag;
+                for (size_t k = 0; k < T; ++k) if (base == (uint64_t)(uintptr_t)&lk[k]) return 2 * (k + 1) + flag;
+                return 1000000 + flag;       // a pointer to something that is not a node: never matches the model
+            };
+            size_t ecount = 0;
+            for (auto& e : r.log) if (e.addr && e.kind <= verif::K_FXOR) {
+                if (r.deadlock && ++ecount > 4000) break;     // a deadlocked / spinning run: the verdict is the finding, not its (huge) trace
+                std::string nm = verif::addr_name(e.addr);
+                if (nm.compare(0, 4, "anon") == 0) continue;
+                bool ptr = nm == "tail" || nm == "prev" || nm == "next";
+                std::string var = nm;
+                if (nm != "tail") {
+                    int owner = -1;
+                    for (size_t k = 0; k < T; ++k) {
+                        const void* f = nm == "prev" ? (const void*)&lk[k].my_prev : nm == "next" ? (const void*)&lk[k].my_next :
+                                        nm == "state" ? (const void*)&lk[k].my_state : nm == "going" ? (const void*)&lk[k].my_going : (const void*)&lk[k].my_internal_lock;
+                        if (e.addr == f) owner = (int)k;
+                    }
+                    var += std::to_string(owner);
+                }
+                printf("e %d %s %s %s %llu %llu %d\n", e.tid, verif::kind_name(e.kind), var.c_str(), verif::order_name(e.order),
+                       ptr ? ptrval(e.a) : (unsigned long long)e.a, ptr ? ptrval(e.b) : (unsigned long long)e.b, e.ok);
+            }
+        }
+#endif
+#ifdef SPEC_MX
+        // access-level trace of the REAL path of rtm_mutex (= spin_mutex::lock / try_lock / unlock on m_flag), replayed on the Lean model `Spin`
+        size_t ecount = 0;
+        for (auto& e : r.log) if (e.addr == (const void*)&m.m_flag && e.kind <= verif::K_FXOR && !(r.deadlock && ++ecount > 4000))
+            printf("e %d %s word %s %llu %llu %d\n", e.tid, verif::kind_name(e.kind), verif::order_name(e.order),
+                   (unsigned long long)e.a, (unsigned long long)e.b, e.ok);
+#endif
+#ifdef SPEC_RW
+        // access-level trace of the REAL (non-speculative) paths of rtm_rw_mutex for the replay on the Lean model `Rtm` (Model/C08R.lean):
+        // every access to the underlying spin_rw_mutex word (m_state) and to write_flag
+        size_t ecount = 0;
+        for (auto& e : r.log) if (e.addr && e.kind <= verif::K_FXOR) {
+            if (r.deadlock && ++ecount > 4000) break;
+            std::string nm = verif::addr_name(e.addr);
+            if (nm != "word" && nm != "wflag") continue;
+            printf("e %d %s %s %s %llu %llu %d\n", e.tid, verif::kind_name(e.kind), nm.c_str(), verif::order_name(e.order),
+                   (unsigned long long)e.a, (unsigned long long)e.b, e.ok);
+        }
+#endif
         for (size_t t = 0; t < T; ++t) { printf("res %zu", t); for (int v : res[t]) printf(" %d", v); printf("\n"); }
         printf("mon %s%s\n", g.err.empty() ? (r.deadlock ? (starved ? "LIVELOCK (step limit reached, nobody parked)" : "DEADLOCK") : "ok") : "VIOLATION ", g.err.c_str());
         printf("sched"); for (int s : r.schedule) printf(" %d", s); printf("\nend\n");
@@ -225,6 +317,13 @@ int main(int argc, char** argv) {
         // the first controlled run, or the runs of one process would not be comparable / replayable
         QRW wm; QRW::scoped_lock wl; do_acquire(wl, wm, true); wl.release();
     }
+#if defined(SPEC_RW) || defined(SPEC_MX)
+    // C08_NOSPEC=1: take the REAL (non-speculative) paths only — their accesses are replayed on the Lean model `Rtm`; hardware
+    // transactions that happen to commit under the scheduler would make the access trace depend on the machine
+    if (getenv("C08_NOSPEC")) tbb::detail::r1::governor::cpu_features.rtm_enabled = false;
+    g_speculation = tbb::detail::r1::governor::speculation_enabled();
+    printf("speculation %d\n", (int)g_speculation);
+#endif
     char line[1024];
     while (fgets(line, sizeof line, stdin)) {
         std::istringstream is(line); std::string w; is >> w;
